@@ -459,6 +459,10 @@ def run_lex(rep, prop, extra_coverage=None, budget_override=None):
             if select.expansion_failure_is_violation(prop, d, e):
                 rep.violation('expansion ' + select.expansion_key(e), '%s: well-formed definition is not turned into a lexer: %s' % (d.name, e[:300]),
                               {'property': prop, 'definition': d.lexer_text('L').split('\n'), 'error': e})
+            else:
+                # the property is stated for every well-formed definition; one the macro does not turn into a lexer
+                # (every generated definition expands on the repaired tree) leaves it undecided - never a silent pass
+                rep.inconc('%s: this well-formed definition of the family is not turned into a lexer (%s), so %s is not decided for it' % (d.name, e[:200], prop))
         cov = {
             'programs': len(defs) - len(crate.errors) - len(over),
             'evaluations': tot['queries'] + tot['paths'],
